@@ -747,6 +747,15 @@ def st_routed(draw, op, a, b):
 def st_chain(draw):
     n = draw(st.sampled_from([2, 2, 3, 4]))
     kind = draw(st.sampled_from(['int', 'dec', 'dec', 'cx']))
+    if draw(st.integers(0, 5)) == 0:
+        # a fully contracted product that is NOT vector*vector (row*column, row*vector, vector*column: a number, or a
+        # one-element array) and then, in the same unparenthesised chain, a division by an array: always an error
+        left, right = draw(st.sampled_from([((1, n), (n, 1)), ((1, n), (n,)), ((n,), (n, 1))]))
+        wshape = draw(st.sampled_from([(n,), (2,), (n, n), (1, n), (n, 1), (2, 2, 2)]))
+        fs = [{'s': list(shp), 'e': draw(st.lists(st_entry(kind), min_size=size(shp), max_size=size(shp)))}
+              for shp in (left, right, wshape)]
+        return {'special': 'contracted-then-divided-by-array', 'f': fs, 'prefix': draw(st.sampled_from(['', '2*', '(1+1)*'])),
+                'tail': draw(st.sampled_from(['', '*2', '/2'])), 'lit': draw(st.lists(st.booleans(), min_size=3, max_size=3))}
     count = draw(st.integers(2, 5))
     types = draw(st.lists(st.sampled_from(['v', 'v', 'v', 'm', 's']), min_size=count, max_size=count))
     factors, ops = [], []
@@ -784,6 +793,23 @@ def eval_flat(values, ops):
 
 
 def judge_chain(spec, rec):
+    if spec.get('special'):
+        names, variables = [], {'i': 1j}
+        for pos, (f, lit) in enumerate(zip(spec['f'], spec['lit'])):
+            if lit:
+                names.append(fmt_literal(f))
+            else:
+                variables['x%d' % pos] = build(f)
+                names.append('x%d' % pos)
+        text = '%s%s*%s/%s%s' % (spec['prefix'], names[0], names[1], names[2], spec['tail'])
+        status, out = call(evaluator, text, variables, {}, {}, max_array_dim=3)
+        rec.calls()
+        if status == 'ok':
+            out = out[0]
+        rec.cls('chain:contracted-product-then-division-by-array')
+        rec.nontrivial()
+        return dict(settle('chain', ('err', 'division by an array'), status, out, rec, 'product chain [%s]' % text[:200]),
+                    text=text[:120])
     fs, ops, grp = spec['f'], spec['ops'], spec['grp']
     values = [opd_ref(f) for f in fs]
     names, variables = [], {'i': 1j}
